@@ -124,7 +124,8 @@ def run(ctx):
 
 
 def logger_rule(ctx):
-    """log_call's stack inspection is diagnostic only: its results flow only into logger.debug."""
+    """log_call's stack inspection is diagnostic only: values derived from inspect.* flow only into logger calls, and the wrapper
+    returns exactly the wrapped function's result for the arguments it was given."""
     R = ctx.report
     repo = ctx.repo
     R.rule("C18-D1c logging is diagnostic only", 1, "values read from the call stack are used only as logging arguments; the wrapped result is returned unchanged")
@@ -133,34 +134,63 @@ def logger_rule(ctx):
     if len(inner) != 1:
         raise AnalysisError("log_call: wrapper not recognised")
     w = inner[0]
+    fparam = f.node.args.args[0].arg if f.node.args.args else None
+    va, kw = (w.args.vararg.arg if w.args.vararg else None), (w.args.kwarg.arg if w.args.kwarg else None)
+    if not (fparam and va and kw):
+        raise AnalysisError("log_call: wrapper signature is not (*args, **kwargs)")
+
+    def from_stack(expr):
+        for x in ast.walk(expr):
+            if isinstance(x, (ast.Attribute, ast.Name)):
+                r = repo.resolve_expr(f.module, x)
+                if r and r[0] == "ext" and (r[1].startswith("inspect.") or r[1].startswith("sys._getframe") or r[1].startswith("traceback.")):
+                    return True
+        return False
     tainted = set()
-    ok = True
-    for n in ast.walk(w):
-        if isinstance(n, ast.Assign) and any(isinstance(x, ast.Attribute) and x.attr in ("stack", "getframeinfo") for x in ast.walk(n.value)) \
-                or (isinstance(n, ast.Assign) and any(isinstance(x, ast.Name) and x.id in tainted for x in ast.walk(n.value))):
-            for t in n.targets:
-                for x in ast.walk(t):
-                    if isinstance(x, ast.Name):
-                        tainted.add(x.id)
-    # second pass for chained assignments in order
-    for n in w.body[0].body if isinstance(w.body[0], ast.Try) else w.body:
-        if isinstance(n, ast.Assign) and any(isinstance(x, ast.Name) and x.id in tainted for x in ast.walk(n.value)):
-            for t in n.targets:
-                for x in ast.walk(t):
-                    if isinstance(x, ast.Name):
-                        tainted.add(x.id)
-    for n in ast.walk(w):
-        if isinstance(n, ast.Name) and n.id in tainted and isinstance(n.ctx, ast.Load):
-            # must be inside a logger.debug(...) call or an assignment to another tainted name
-            in_log = any(isinstance(c, ast.Call) and isinstance(c.func, ast.Attribute) and c.func.attr in ("debug", "info", "warning")
-                         and any(x is n for x in ast.walk(c)) for c in ast.walk(w))
-            in_assign = any(isinstance(a, ast.Assign) and any(x is n for x in ast.walk(a.value)) for a in ast.walk(w))
-            if not (in_log or in_assign):
-                ok = False
+    changed = True
+    while changed:
+        changed = False
+        for n in ast.walk(w):
+            if isinstance(n, (ast.Assign, ast.AnnAssign)) and n.value is not None:
+                if from_stack(n.value) or any(isinstance(x, ast.Name) and x.id in tainted for x in ast.walk(n.value)):
+                    tg = n.targets if isinstance(n, ast.Assign) else [n.target]
+                    for t in tg:
+                        for x in ast.walk(t):
+                            if isinstance(x, ast.Name) and x.id not in tainted:
+                                tainted.add(x.id)
+                                changed = True
+    par = parents_of(w)
+
+    def inside_log_or_assign(n):
+        p_ = par.get(n)
+        while p_ is not None and p_ is not w:
+            if isinstance(p_, ast.Call) and isinstance(p_.func, ast.Attribute) and p_.func.attr in ("debug", "info", "warning", "error", "exception", "log"):
+                return True
+            if isinstance(p_, (ast.Assign, ast.AnnAssign)):
+                return True
+            p_ = par.get(p_)
+        return False
+    leaks = [n for n in ast.walk(w) if ((isinstance(n, ast.Name) and n.id in tainted and isinstance(n.ctx, ast.Load)) or (
+        isinstance(n, ast.Call) and from_stack(n.func))) and not inside_log_or_assign(n)]
+
+    def is_wrapped_call(e):
+        return isinstance(e, ast.Call) and isinstance(e.func, ast.Name) and e.func.id == fparam and len(e.args) == 1 and isinstance(e.args[0], ast.Starred) \
+            and isinstance(e.args[0].value, ast.Name) and e.args[0].value.id == va and len(e.keywords) == 1 and e.keywords[0].arg is None \
+            and isinstance(e.keywords[0].value, ast.Name) and e.keywords[0].value.id == kw
     rets = [n for n in ast.walk(w) if isinstance(n, ast.Return)]
-    ok = ok and len(rets) == 1 and ast.unparse(rets[0].value) == "func(*args, **kwargs)"
-    R.check("C18-D1c logging is diagnostic only", ok and bool(tainted), "log_call", mod=f.module, node=f.node, function=ctx.fq(f),
-            expected="return func(*args, **kwargs); frame info only in logger.debug", found=f"tainted names {sorted(tainted)}")
+    ret_ok = bool(rets)
+    for r_ in rets:
+        v = r_.value
+        if isinstance(v, ast.Name) and v.id not in tainted:
+            asg = [n for n in ast.walk(w) if isinstance(n, ast.Assign) and any(isinstance(t, ast.Name) and t.id == v.id for t in n.targets)]
+            ret_ok = ret_ok and len(asg) == 1 and is_wrapped_call(asg[0].value)
+        else:
+            ret_ok = ret_ok and is_wrapped_call(v)
+    rebinds = [n for n in ast.walk(w) if isinstance(n, ast.Name) and isinstance(n.ctx, ast.Store) and n.id in (fparam, va, kw)]
+    R.check("C18-D1c logging is diagnostic only", not leaks and ret_ok and not rebinds and bool(tainted), "log_call", mod=f.module, node=f.node,
+            function=ctx.fq(f), expected="return func(*args, **kwargs); frame info only in logger calls",
+            found=f"stack-derived values escape at line {leaks[0].lineno}" if leaks else ("arguments rebound" if rebinds else
+                                                                                           "the wrapped result is not returned unchanged" if not ret_ok else "no stack use found"))
 
 
 def sign_encrypt_sources(ctx, cg):
@@ -420,9 +450,13 @@ def shared_state(ctx):
     # update_wrapper allow-list entry must still have the reviewed shape
     w = repo.mod("suit_generator.suit.types.common").functions.get("cbstr.<locals>.Cbstr.__init__")
     if w is not None:
-        src = ast.unparse(w.node)
         R.rule("C18-D2b reviewed exception", 1, "the allow-listed wrapper update has the reviewed shape")
-        R.check("C18-D2b reviewed exception", "functools.update_wrapper(Cbstr, cls, updated=[])" in src and src.count("=") <= 3, "Cbstr.__init__",
+        wo = Evaluator(repo, inline_depth=0).outcomes(w)
+        effs = [e for o in wo for e in o.effects if isinstance(e, App) and e.op.startswith("eff:") and e.op != "eff:assume"]
+        shape = len(wo) == 1 and len(effs) == 2 and all(e.op == "eff:call" for e in effs) \
+            and effs[0].args[0] == App("call:functools.update_wrapper", (Sym("free:Cbstr"), Sym("free:cls"), App("kw", (Const("updated"), Const([]))))) \
+            and isinstance(effs[1].args[0], App) and effs[1].args[0].op == "supercall:__init__"
+        R.check("C18-D2b reviewed exception", shape, "Cbstr.__init__",
                 mod=w.module, node=w.node, function=ctx.fq(w), expected="only functools.update_wrapper(Cbstr, cls, updated=[]) and super().__init__",
                 found="shape changed")
     # metadata patches: only at module level
@@ -488,13 +522,21 @@ def loaders(ctx):
             "from_yaml_file", mod=y.module, node=y.node, function=ctx.fq(y), expected="return yaml.load(fh, Loader=yaml.SafeLoader)",
             found=repr(yo[0].value)[:160] if yo else "?")
     ld = repo.func("suit_generator.envelope", "SuitEnvelope.load")
-    src = ast.unparse(ld.node)
-    R.check("C18-D4 format independence", "self._envelope = load_method(file_name)" in src, "load() keeps the loader's result as is", mod=ld.module,
-            node=ld.node, function=ctx.fq(ld), expected="self._envelope = load_method(file_name)", found="result transformed")
+    lo = [o for o in ev.outcomes(ld) if o.kind == "return"]
+    sets = [e for o in lo for e in all_effects(o.effects) if isinstance(e, App) and e.op == "eff:setattr" and e.args[1] == Const("_envelope")]
+
+    def through(t, getter):
+        return isinstance(t, App) and t.op == "call" and isinstance(t.args[0], App) and t.args[0].op == "call" and isinstance(t.args[0].args[0], Ref) \
+            and t.args[0].args[0].obj.name == getter
+    ok = len(sets) == 1 and through(sets[0].args[2], "get_deserializer") and list(sets[0].args[2].args[1:]) == [Sym("param:file_name")]
+    R.check("C18-D4 format independence", ok, "load() keeps the loader's result as is", mod=ld.module,
+            node=ld.node, function=ctx.fq(ld), expected="self._envelope = load_method(file_name)", found=f"{[repr(e)[:160] for e in sets]}")
     dp = repo.func("suit_generator.envelope", "SuitEnvelope.dump")
-    src = ast.unparse(dp.node)
-    R.check("C18-D4 format independence", "dump_method(file_name, self._envelope, parse_hierarchy)" in src, "dump() hands the stored description to the serializer",
-            mod=dp.module, node=dp.node, function=ctx.fq(dp), expected="dump_method(file_name, self._envelope, parse_hierarchy)", found="description transformed")
+    do = [o for o in ev.outcomes(dp) if o.kind == "return"]
+    dcalls = [e.args[0] for o in do for e in all_effects(o.effects) if isinstance(e, App) and e.op == "eff:call" and through(e.args[0], "get_serializer")]
+    ok = len(dcalls) == 1 and list(dcalls[0].args[1:]) == [Sym("param:file_name"), App("attr:_envelope", (Sym("param:self"),)), Sym("param:parse_hierarchy")]
+    R.check("C18-D4 format independence", ok, "dump() hands the stored description to the serializer",
+            mod=dp.module, node=dp.node, function=ctx.fq(dp), expected="dump_method(file_name, self._envelope, parse_hierarchy)", found=f"{[repr(c)[:200] for c in dcalls]}")
     # informational: parameters mutated in place on the create path
     f = repo.func("suit_generator.suit.security", "SuitDigestExt.from_obj")
     n = sum(1 for x in ast.walk(f.node) if isinstance(x, ast.Subscript) and isinstance(x.ctx, ast.Store) and isinstance(x.value, ast.Name) and x.value.id == "obj")
